@@ -57,11 +57,22 @@ def gen_database(rng, n_prot=None):
         if not peps:
             peps = [rng.choice(pool_shared)]
         db.append(("P%d" % i, "".join(peps)))
-    if rng.random() < 0.3 and len(db) >= 2:  # a protein whose peptides are a subset of another's
+    # proteins that end up in ONE group with others (member order then depends on the order of each peptide's
+    # protein list): a sub-protein, and isoforms with the same peptides in another arrangement
+    if rng.random() < 0.5 and len(db) >= 2:
         src = rng.choice(db)
         t = tryptic(src[1])
         if len(t) >= 2:
             db.append(("P%d" % (len(db) + 1), "".join(t[: rng.randint(1, len(t) - 1)])))
+    for _ in range(rng.choice([0, 1, 1, 2])):
+        src = rng.choice(db)
+        t = tryptic(src[1])
+        if t:
+            t = t[:]
+            rng.shuffle(t)
+            db.append(("P%d" % (len(db) + 1), "".join(t)))
+    if rng.random() < 0.5:  # realistic identifiers (their hashes, hence set orders, differ from the short ones)
+        db = [("sp|Q%05d|%s_HUMAN" % (rng.randint(0, 99999), pid), seq) for pid, seq in db]
     return db
 
 
